@@ -122,7 +122,10 @@ fn file_line() -> BoxedStrategy<Vec<u8>> {
 }
 
 pub fn command_line() -> BoxedStrategy<Vec<u8>> {
-    let sep = prop::sample::select(vec![" ", " ", " ", "  ", " \t", "   \t "]);
+    let sep = prop_oneof![
+        12 => prop::sample::select(vec![" ", " ", " ", "  ", " \t", "   \t "]).prop_map(String::from),
+        1 => crate::engine::gen::interesting_len(300).prop_map(|n| " ".repeat(n.max(1))),
+    ];
     prop_oneof![
         // command with argument
         10 => (0usize..COMMANDS.len(), sep, arg_bytes()).prop_map(|(i, s, a)| {
@@ -165,7 +168,12 @@ fn unknown_command_line() -> BoxedStrategy<Vec<u8>> {
 }
 
 fn blank_line() -> BoxedStrategy<Vec<u8>> {
-    prop::sample::select(vec!["", "", " ", "\t", "  \t ", "\r", " \x0b"]).prop_map(|s| s.as_bytes().to_vec()).boxed()
+    prop_oneof![
+        12 => prop::sample::select(vec!["", "", " ", "\t", "  \t ", "\r", " \x0b"]).prop_map(|s| s.as_bytes().to_vec()),
+        // a blank line of a chosen length (0-700 blanks or tabs)
+        1 => (crate::engine::gen::interesting_len(700), 0u8..3).prop_map(|(n, k)| (0..n).map(|i| match k { 0 => b' ', 1 => b'\t', _ => if i % 2 == 0 { b' ' } else { b'\t' } }).collect()),
+    ]
+    .boxed()
 }
 
 fn line(err_weight: u32) -> BoxedStrategy<Vec<u8>> {
